@@ -4,13 +4,41 @@
    or code that cannot have compiled).  All-or-nothing is how the method is laid out
    (json_formatter.go: decode into the local `plain`, validate, assign `*j` last): the model's only
    way to change the destination is the Ok result.  Totality (no Crash) is the typing invariant
-   "every validator names a field of the shape it dereferences": see C19_total in Proofs/WfP.v. *)
-From GJS Require Import Base Regex Schema GoType Gen Exec Valid ExecP GenP CoreP.
+   "every validator names a field of the shape it dereferences" ([wf_ty], a decidable predicate on the
+   generated type tree, Proofs/WfP.v): under it NO document and NO fuel leads to a panic.  [wf_ty] is
+   evaluated on the type the model generates for every schema of the correspondence families
+   (RunCore.case_wf); that gen always produces wf types is checked per instance, not proved in general. *)
+From GJS Require Import Base Regex Schema GoType Gen Exec Valid ExecP GenP CoreP WfP.
 
 Theorem C19_atomic : forall fmt_ok env dest f t j,
   snd (unmarshal_into fmt_ok env dest f t j) = false -> fst (unmarshal_into fmt_ok env dest f t j) = dest.
 Proof. exact unmarshal_into_atomic. Qed.
 Print Assumptions C19_atomic.
+
+(* totality: every JSON document (any shape, any depth), every fuel; [None] for malformed bytes is the
+   first Unmarshal call failing before anything is touched *)
+Theorem C19_total : forall fmt_ok env, env_wf env -> forall f t j, wf_ty env t = true -> dec fmt_ok env f t j <> Crash.
+Proof. exact dec_never_panics. Qed.
+Print Assumptions C19_total.
+
+(* with it, every decoded value has the shape of its Go type (the invariant the proof carries) *)
+Theorem C19_shapes : forall fmt_ok env, env_wf env -> forall f t, wf_ty env t = true -> dec_good (dec fmt_ok env f) t.
+Proof. exact dec_safe. Qed.
+Print Assumptions C19_shapes.
+
+(* non-vacuity: the type generated for a schema with required, defaulted, constrained and nested properties is well formed *)
+Definition wf_schema : schema :=
+  Sch (mkC [SObject] None None [[97]%N] 0 0 0 0 None None (mkBounds None None None None) None None)
+      [([97]%N, Sch (mkC [SString] None None [] 0 0 2 0 None None (mkBounds None None None None) None None) [] None false None [] []);
+       ([98]%N, Sch (mkC [SInteger] None None [] 0 0 0 0 None None (mkBounds (Some 0%Q) None None None) (Some (JInt 3)) None) [] None false None [] []);
+       ([99]%N, Sch (mkC [SArray] None None [] 1 0 0 0 None None (mkBounds None None None None) None None) [] None false
+                  (Some (Sch (mkC [SArray] None None [] 1 0 0 0 None None (mkBounds None None None None) None None) [] None false
+                          (Some (Sch (mkC [SNumber] None None [] 0 0 0 0 None None (mkBounds None None None None) None None) [] None false None [] [])) [] [])) [] [])]
+      None false None [] [].
+Example C19_wf_inhabited :
+  exists t b, gen (fun s => s) (mkCfg false false) [] 20 MDeclared None false wf_schema [82]%N = Done (t, b) /\ wf_ty [] t = true.
+Proof. eexists. eexists. split; [vm_compute; reflexivity|]. vm_compute. reflexivity. Qed.
+Print Assumptions C19_wf_inhabited.
 
 (* refuted in full (D30): the additional-properties block is emitted without a nil guard; null
    panics a struct with typed additionalProperties *)
@@ -20,5 +48,6 @@ Definition addl_schema : schema :=
       (Some (Sch (mkC [SNumber] None None [] 0 0 0 0 None None (mkBounds None None None None) None None) [] None false None [] [])) false None [] [].
 Theorem C19_refuted_addl_null :
   exists t b, gen (fun s => s) (mkCfg false false) [] 20 MDeclared None false addl_schema [82]%N = Done (t, b) /\
-    dec (fun _ _ => true) [] 20 t JNull = Crash.
-Proof. eexists. eexists. split; [vm_compute; reflexivity|]. vm_compute. reflexivity. Qed.
+    dec (fun _ _ => true) [] 20 t JNull = Crash /\ wf_ty [] t = false.
+Proof. eexists. eexists. split; [vm_compute; reflexivity|]. vm_compute. split; reflexivity. Qed.
+Print Assumptions C19_refuted_addl_null.
